@@ -44,8 +44,10 @@ names=("$@"); [ ${#names[@]} -eq 0 ] && names=(m2m_drop_in_dep m2l_commute_to_in
 fail=0
 for m in "${names[@]}"; do
   rsync -a --delete --exclude _build --exclude .git /repo/ "$SCR/"
+  # rsync -a restores the previous mutant's file with its OLD modification time: make would keep objects built from the mutated header
+  [ -n "${prevfile:-}" ] && touch "$SCR/$prevfile"
   spec="${PATCH[$m]}"; file="${spec##* }"; expr="${spec% *}"
-  sed -i "$expr" "$SCR/$file"
+  sed -i "$expr" "$SCR/$file"; prevfile="$file"
   if diff -q "/repo/$file" "$SCR/$file" >/dev/null; then echo "MUTANT $m: patch did not apply"; fail=1; continue; fi
   for c in ${CHECKS[$m]}; do
     want=1; [ "${c:0:1}" = "=" ] && { want=0; c="${c:1}"; }
